@@ -4,27 +4,23 @@
    erun: the same program performed element by element with individual Records),
    Proofs/C06P.v (simulation through forward tangents + Proofs/TapeP.sweep_is_tangent).
 
-   FULL STATEMENT aimed at (C06_elementwise_equiv): for EVERY container program `prog` of the
-   case language (declarations, unary kinds incl. *_assign, binary kinds in the four invocation
-   modes, matrix multiplication, map / map_mut, from_iter, from_iters) whose container run and
-   element-by-element run complete: equal shapes and values for every environment entry, and
-   for every input element (x, j) and output element (o, i) the derivative on the container tape
-   equals the derivative on the Record tape.
-   PROVED below (C06_elementwise_equiv_partial): exactly that statement for programs built from
-   declarations, all unary kinds (allocating and assign forms) and all binary kinds in all four
-   invocation modes (`supported`).  MISSING from the proof (covered by the correspondence check
-   only, where the harness compares the two runs on every case): OMatmul, OMap, OFromIter,
-   OFromIters2; also not derived: that the element-by-element run cannot fail when the
-   container run completes (it is a hypothesis), and that constant-ness agrees. *)
+   C06_elementwise_equiv covers EVERY container program of the case language: declarations
+   (variables / constants, tensors / matrices), all unary kinds (allocating and assign forms),
+   all binary kinds in the four invocation modes (operator, binary / elementwise_*, left
+   assign, right assign - every variable/constant pairing), both matrix multiplications, map /
+   map_mut with arbitrary scalar closures, from_iter (row / column major, tensor <-> matrix)
+   and from_iters::<2>.  Hypotheses visible in the statement: both runs complete (that the
+   element-by-element run cannot fail when the container run completes is NOT derived), and
+   the compared output element is a variable on both tapes (agreement of constant-ness is NOT
+   derived; the harness cross-checks it on every case).  Any commutative ring. *)
 From Coq Require Import List ZArith Bool Arith.
 From EasyML Require Import Base.Sx Model.Num Model.Tape Model.Container Proofs.TapeP Proofs.C06P.
 Import ListNotations.
 
-Theorem C06_elementwise_equiv_partial :
+Theorem C06_elementwise_equiv :
   forall (R : Type) (ops : numops R),
   ring_theory (nzero ops) (none_ ops) (nadd ops) (nmul ops) (nsub ops) (nneg ops) (@eq R) ->
   forall prog m m' ct cenv et eenv,
-  forallb supported prog = true ->
   crun ops ([], []) 0 prog = Some (m, Ok (ct, cenv)) ->
   erun ops ([], []) 0 prog = Some (m', Ok (et, eenv)) ->
   (forall o c e, nth_error cenv o = Some c -> nth_error eenv o = Some e ->
@@ -38,7 +34,7 @@ Theorem C06_elementwise_equiv_partial :
      nth_error (c_data c) i = Some (v, po) -> c_hist c = Some h ->
      nth_error (e_recs e) i = Some ro -> r_hist ro = Some h' ->
      nth p (sweep ops ct po) (nzero ops) = nth (r_idx rq) (sweep ops et (r_idx ro)) (nzero ops)).
-Proof. exact @elementwise_equiv. Qed.
+Proof. exact @elementwise_equiv_all. Qed.
 
 (* FULL STATEMENT aimed at (C06_constant_side_inert): with one operand constants, that operand
    influences no derivative, for binary operations AND both matrix multiplications.
@@ -63,15 +59,30 @@ Proof. exact @constant_side_inert. Qed.
 Example C06_nonvacuous :
   let prog := [ODecl true true [(0, 2)] [3; 4]%Z; ODecl true false [(0, 2)] [5; 6]%Z;
                OBinary 1 2 0 1; OBinary 2 0 2 0; OUnary true 0 0%Z 3] in
-  forallb supported prog = true /\ is_input 0 1 0 prog /\
+  is_input 0 1 0 prog /\
   exists m ct cenv m' et eenv,
     crun Zops6 ([], []) 0 prog = Some (m, Ok (ct, cenv)) /\
     erun Zops6 ([], []) 0 prog = Some (m', Ok (et, eenv)) /\
     nth 1 (sweep Zops6 ct 5) 0%Z = 7%Z /\ nth 1 (sweep Zops6 et 5) 0%Z = 7%Z.
 Proof.
-  cbv zeta. split; [reflexivity|]. split; [left; split; [reflexivity|cbn; auto]|].
+  cbv zeta. split; [left; split; [reflexivity|cbn; auto]|].
   do 6 eexists. vm_compute. repeat split; reflexivity.
 Qed.
 
-Print Assumptions C06_elementwise_equiv_partial.
+(* non-vacuity with a matrix product (variables x constants) followed by a map closure x*x *)
+Example C06_nonvacuous_matmul :
+  let sh := [(0, 2); (1, 2)] in
+  let prog := [ODecl false true sh [1; 2; 3; 4]%Z; ODecl false false sh [5; 6; 7; 8]%Z;
+               OMatmul 0 1; OMap false (SBin 2 SX SX) 2] in
+  is_input 0 0 0 prog /\
+  exists m ct cenv m' et eenv,
+    crun Zops6 ([], []) 0 prog = Some (m, Ok (ct, cenv)) /\
+    erun Zops6 ([], []) 0 prog = Some (m', Ok (et, eenv)) /\
+    nth 0 (sweep Zops6 ct 16) 0%Z = 190%Z /\ nth 0 (sweep Zops6 et 16) 0%Z = 190%Z.
+Proof.
+  cbv zeta. split; [left; split; [reflexivity|cbn; auto]|].
+  do 6 eexists. vm_compute. repeat split; reflexivity.
+Qed.
+
+Print Assumptions C06_elementwise_equiv.
 Print Assumptions C06_constant_side_inert_partial.
